@@ -48,4 +48,8 @@ def main(rep: Report, replay: dict | None, which=("A", "C", "B"), pair=False) ->
         if g is not None:
             iter_replay.replay(rep, name, g, pair=pair and name == "B")
     iter_traces.run(rep, n_traces=300 if rep.tier == "quick" else 4000, pair=pair)
+    if which == ("A", "C", "B"):  # C08 proper: also the renderable's own seek/tell/frame_count
+        from .. import seek_replay
+
+        seek_replay.run(rep)
     rep.exhaustive = False
